@@ -201,3 +201,21 @@ Definition account_task_v0 (t : task) : res account :=
 (* every live handle has exactly one consumer, as a decidable count statement *)
 Definition balanced (a : account) : bool :=
   Nat.eqb (a_handles a) (a_branch_evals a + a_chan_writes a + a_closes a).
+
+(* ------------------------------------------------------------------ callback copies *)
+(* internal/callbacks.OnWithStreamHandle (inject.go:104-122): without a handler the stream itself
+   continues; otherwise inOuts := Copy(len(handlers)+1), handler i is handed inOuts[i] (it reads or
+   closes it), the last copy continues.  Returns (the continuing stream, the copies handed to the
+   handlers, the store). *)
+Definition on_with_stream_handle (handlers : nat) (h : handle) (s : store) : handle * list handle * store :=
+  match handlers with
+  | O => (h, [], s)
+  | S _ =>
+      let '(cs, s') := copy_item h (Z.of_nat (handlers + 1)) s in
+      (List.last cs h, List.removelast cs, s')
+  end.
+
+(* the Copy sizes logged by [n] streaming callback sites with [handlers] handlers each *)
+Definition callback_copies (handlers : nat) (sites : nat) : list Z :=
+  let '(_, _, s) := on_with_stream_handle handlers 0 (init_store 0) in
+  List.concat (List.repeat (s_log s) sites).
